@@ -83,7 +83,8 @@ Detail(e, clause) ==
     [] clause = "no-data-race" -> RaceClasses(e)
     [] clause = "every-link-resolves" ->
          \* a link into a page group that was switched off: the target exists when every group is published
-         IF HasRun(e, "allgroups") /\ \A x \in DeadLinks(Ref(e)) : x[2] \in Names(Run(e, "allgroups")) THEN "asis:LinksIntoDisabledGroups"
+         IF HasRun(e, "allgroups") /\ \A x \in DeadLinks(Ref(e)) : x[2] \in Names(Run(e, "allgroups")) \cup (IF HasRun(e, "linkgroups") THEN Names(Run(e, "linkgroups")) ELSE {})
+         THEN "asis:LinksIntoDisabledGroups"
          ELSE DeadGroups(e)
     [] OTHER -> ""
 
